@@ -8,20 +8,19 @@ from evalwire import cp, un_cp, wire_scalar, canon_result
 
 LEVEL_TEXT = (
     'Lean theorems over a statement-by-statement model of ModelCompiler.extract (focus loop, term collection, '
-    'worklist, build_code) and the shared evaluator model: evaluation of an address reads only its dependency '
-    'closure (every function semantics, every fuel); the worklist terminates; the extracted model contains the '
-    'closure of the focus with identical contents and every focused address evaluates as in the original, also '
-    'after the same set_cell_value calls on both — under the guard of finding D1301 (no formula in the closure '
-    'mentions a defined name; kernel-checked counter-example without it); nothing outside the closure is copied; '
-    'with the proposed repair of D1301 (modelled as extractR) the same theorems hold without the guard. The model '
-    'is tied to the running code by a differential run over generated acyclic workbooks with every non-empty '
-    'focus subset.')
+    'worklist incl. the branch that follows defined names, build_code) and the shared evaluator model: evaluation '
+    'of an address reads only its dependency closure (every function semantics, every fuel); the worklist '
+    'terminates; the extracted model contains the closure of the focus with identical contents and nothing else; '
+    'every focused address evaluates as in the original, also after the same set_cell_value calls on both. The '
+    'model is tied to the running code by a differential run over generated acyclic workbooks with every '
+    'non-empty focus subset.')
 LEVEL_NOTE = (
     'Trusted: Lean kernel (axioms propext, Classical.choice, Quot.sound), the hand-written models of extract and '
     'of the evaluator (validated by correspondence, not proved equal to the Python), copy.deepcopy, the tokenizer '
-    '/parser producing formula.terms and the AST (C02, C03). extract_sound and extract_contains_closure are '
-    'partial (guard NameFree, findings D1301/D1302); extract_pure is trivial in the functional model and is '
-    'checked on the real objects by deep comparison.')
+    '/parser producing formula.terms and the AST (C02, C03). The theorems assume the hygiene of compiled '
+    'workbooks (WF: range keys, cell addresses and defined names are disjoint; names are bound to existing cells '
+    'or registered ranges). extract_pure is trivial in the functional model and is checked on the real objects '
+    'by deep comparison.')
 DESIGN_REF = '§4 C13'
 
 TRUSTED = [
@@ -39,7 +38,7 @@ ASSUMPTIONS = [
     'by extract and outside the domain',
     'Evaluator.evaluate(<name bound to a range>) raises ValueError on every model; it is compared as an outcome',
     'input changes are set_cell_value calls on non-formula cells by address, or by a focused cell name',
-    'formulas use + - * unary- SUM < IF on integers (the function semantics is a parameter of the theorems)',
+    'formulas use + - * unary- SUM COUNTA < IF on integers (the function semantics is a parameter of the theorems)',
 ]
 
 SHEETS = ['Sheet1', 'S2', 'My Sheet']
@@ -161,14 +160,17 @@ def gen_fx(rng, earlier, ranges, names, depth):
         if r < 0.68:
             return ('app', 7, [go(d - 1)])
         if r < 0.88:
-            # one range, or scalars only (SUM of a range and anything else raises in the real code: C14)
-            if ranges and rng.random() < 0.75:
-                args = [('rng', rng.choice(ranges))]
-            elif names and [n for n in names if n[1] == 'r'] and rng.random() < 0.5:
-                args = [('rng', rng.choice([n for n in names if n[1] == 'r'])[0])]
-            else:
-                args = [go(d - 1) for _ in range(rng.randint(1, 2))]
-            return ('app', 4, args)
+            rnames_ = [n for n in names if n[1] == 'r']
+            args = []
+            for _ in range(rng.randint(1, 2)):
+                r2 = rng.random()
+                if ranges and r2 < 0.6:
+                    args.append(('rng', rng.choice(ranges)))
+                elif rnames_ and r2 < 0.8:
+                    args.append(('rng', rng.choice(rnames_)[0]))
+                else:
+                    args.append(go(d - 1))
+            return ('app', rng.choice([4, 4, 4, 9]), args)
         return ('if', ('app', 10, [go(d - 1), go(d - 1)]), go(d - 1), go(d - 1))
     return go(depth)
 
@@ -214,7 +216,7 @@ def gen_wb(rng, ncells, name_refs, depth=None):
 
 
 def hand_made():
-    """the shapes the tests never extract, plus the witnesses of the repaired and the known findings"""
+    """the shapes the tests never extract (the witnesses of repaired findings live in corpus/C13)"""
     S = 'Sheet1!'
     ref = lambda a: ('ref', a)  # noqa: E731
     add = lambda a, b: ('app', 0, [a, b])  # noqa: E731
@@ -238,13 +240,6 @@ def hand_made():
                            'My Sheet!A1': ('f', add(ref(S + 'B1'), ('lit', 1)))},
                  'names': {'nm1': 'My Sheet!A1', 'nm2': S + 'A1'}, 'rnames': {'rn1': S + 'A1:A2'}},
                 'focused cell names and range name'))
-    # D1301: a formula mentions a defined name
-    out.append(({'cells': {S + 'A1': 5, S + 'A2': 7, S + 'B1': ('f', add(ref('nm1'), ('lit', 1))),
-                           S + 'B2': ('f', ('app', 4, [('rng', 'rn1')]))},
-                 'names': {'nm1': S + 'A1'}, 'rnames': {'rn1': S + 'A1:A2'}}, 'D1301 names inside formulas'))
-    # D1302: a range name over a cell that does not exist
-    out.append(({'cells': {S + 'A1': 5, S + 'A2': 7, S + 'B1': ('f', add(ref(S + 'A1'), ('lit', 1)))},
-                 'rnames': {'rn1': S + 'A1:A3'}}, 'D1302 range name over an empty cell'))
     return out
 
 
@@ -362,8 +357,9 @@ def gen_cases(ctx):
         c.evaluated = rng.random() < 0.35 if evaluated is None else evaluated
         cases.append(c)
 
-    # hand-made shapes: every non-empty focus subset, on a fresh and on an evaluated model
-    for wb, tag in hand_made():
+    # regression inputs (corpus/C13) first, then hand-made shapes: every non-empty focus subset, on a fresh and
+    # on an evaluated model
+    for wb, tag in load_corpus() + hand_made():
         items = focus_items(wb)
         for k in range(1, len(items) + 1):
             for sub in itertools.combinations(items, k):
@@ -438,7 +434,6 @@ def run(ctx):
                 'before/after the changes, original unchanged by deep comparison, closure contained) and vs the '
                 'Lean model of extract (copied key sets); non-trivial = distinct (workbook, focus) whose closure '
                 'is larger than the focus')
-    known_ids = {e['id'] for e in ctx.known if e.get('status') == 'known'}
     if getattr(ctx, 'replay', None):
         cases = [case_of_replay(ctx.replay)]
     else:
@@ -449,12 +444,23 @@ def run(ctx):
         for c in chunk:
             c.real = run_real(c)
         resp = ctx.driver.batch([c.line for c in chunk])
-        classify(ctx, res, known_ids, chunk, resp)
+        classify(ctx, res, chunk, resp)
         for c in chunk:
             c.real = c.line = None
     if res.drift:
         res.notes.append(f'{len(res.drift)} model/implementation differences where the code still meets Spec')
     return res
+
+
+def load_corpus():
+    import json
+    out = []
+    for path in sorted((common.CORPUS / 'C13').glob('*.json')):
+        e = json.loads(path.read_text())
+        a = e['abstract']
+        out.append(({'cells': {k: tuplify(v) for k, v in a['cells'].items()}, 'names': a.get('names', {}),
+                     'rnames': a.get('rnames', {})}, 'corpus:' + path.stem))
+    return out
 
 
 def tuplify(x):
@@ -481,7 +487,7 @@ def case_of_replay(path):
     return c
 
 
-def classify(ctx, res, known_ids, cases, resp):
+def classify(ctx, res, cases, resp):
     for c, r in zip(cases, resp):
         d = parse_kv(r)
         if 'spec' not in d:
@@ -509,13 +515,10 @@ def classify(ctx, res, known_ids, cases, resp):
                                        'got': obs[key]})
         if 'raise' in obs:
             res.count('outcome:extract-raised')
-            if 'err' in d and 'D1302' in known_ids and obs['raise'].startswith('X:KeyError') \
-                    and un_cp(d['err']) in obs['raise']:
-                res.known.setdefault('D1302', []).append(inp)
-            else:
-                res.violations.append({'what': 'extract raised', 'input': inp,
-                                       'expected': 'an extracted model' if 'err' not in d else 'model: KeyError ' + un_cp(d['err']),
-                                       'got': obs['raise']})
+            res.violations.append({'what': 'extract raised', 'input': inp,
+                                   'expected': 'an extracted model' if 'err' not in d
+                                   else 'model: KeyError ' + un_cp(d['err']),
+                                   'got': obs['raise']})
             continue
         if 'err' in d:
             res.drift.append({'input': inp, 'model': 'KeyError ' + un_cp(d['err']), 'real': 'extracted'})
@@ -533,31 +536,26 @@ def classify(ctx, res, known_ids, cases, resp):
         # 1. the property: focused addresses evaluate alike, before and after the changes
         bad = False
         for i, f in enumerate(c.focus):
-            for phase, xr, mr, im in (('before', obs['x0'][i], obs['m0'][i], impl0[i]),
-                                      ('after', obs['x1'][i], obs['m1'][i], impl1[i])):
+            for phase, xr, mr in (('before', obs['x0'][i], obs['m0'][i]), ('after', obs['x1'][i], obs['m1'][i])):
                 if same_value(xr, mr):
                     continue
                 bad = True
-                if not guard and 'D1301' in known_ids and same_keys and same_value(xr, im):
-                    res.known.setdefault('D1301', []).append(inp)
-                else:
-                    res.violations.append({'what': f'focused {f} evaluates differently in the extracted model '
-                                                   f'({phase} the input changes)', 'input': inp,
-                                           'expected': mr, 'got': xr})
+                res.violations.append({'what': f'focused {f} evaluates differently in the extracted model '
+                                               f'({phase} the input changes)', 'input': inp,
+                                       'expected': mr, 'got': xr})
         # 2. the extracted model contains the closure
         missing = [a for a in closure
                    if (a in obs['all_cells'] and a not in keys['cells'])
                    or (a in obs['all_ranges'] and a not in keys['ranges'])]
         if missing:
-            if not guard and 'D1301' in known_ids and same_keys:
-                res.known.setdefault('D1301', []).append(inp)
-            else:
-                res.violations.append({'what': 'the extracted model does not contain the dependency closure of '
-                                               'the focus', 'input': inp, 'expected': sorted(closure),
-                                       'got': {'cells': keys['cells'], 'ranges': keys['ranges'],
-                                               'missing': missing}})
-        elif not guard:
-            res.count('D1301-region-but-closure-present')
+            res.violations.append({'what': 'the extracted model does not contain the dependency closure of '
+                                           'the focus', 'input': inp, 'expected': sorted(closure),
+                                   'got': {'cells': keys['cells'], 'ranges': keys['ranges'],
+                                           'missing': missing}})
+        # nothing outside the closure is needed; a larger extract is reported as a note, not a violation
+        extra = [a for a in keys['cells'] + keys['ranges'] if a not in closure]
+        if extra:
+            res.count('extract-larger-than-closure')
         if keys['formulae']:
             res.notes.append('extract now fills formulae')
         # 3. model validation (drift, not violations)
@@ -574,4 +572,4 @@ def classify(ctx, res, known_ids, cases, resp):
                                             or not same_value(obs['x1'][i], impl1[i])):
                 res.drift.append({'input': inp, 'what': f'evaluator model on the extract at {f}',
                                   'model': [impl0[i], impl1[i]], 'real': [obs['x0'][i], obs['x1'][i]]})
-        res.count('guard:' + ('name-free' if guard else 'D1301-region'))
+        res.count('names:' + ('none-in-closure' if guard else 'defined-names-used-in-closure'))
